@@ -66,6 +66,9 @@ def run(tier: str) -> int:
             {"Family": "stackdeep", "MaxLen": 3, "Starts": "zero", "Sample": 800, "workers": 3},
             {"Family": "tags", "MaxLen": 4, "Starts": "zero", "Sample": 250, "workers": 2},
             {"Family": "names", "MaxLen": 3, "Starts": "zero", "Sample": 300, "workers": 2},
+            {"Family": "optsk", "MaxLen": 3, "Starts": "all", "Sample": 200, "workers": 3, "style": "min"},
+            {"Family": "optinl", "MaxLen": 3, "Starts": "zero", "Sample": 150, "workers": 3, "style": "min"},
+            {"Family": "optsq", "MaxLen": 3, "Starts": "zero", "Sample": 150, "workers": 3, "style": "min"},
         ]
     else:
         fams = [
@@ -79,6 +82,9 @@ def run(tier: str) -> int:
             {"Family": "stackdeep", "MaxLen": 4, "Starts": "zero", "Sample": 20000, "workers": 8},
             {"Family": "tags", "MaxLen": 4, "Starts": "all", "Sample": 0, "workers": 8},
             {"Family": "names", "MaxLen": 4, "Starts": "zero", "Sample": 0, "workers": 8},
+            {"Family": "optsk", "MaxLen": 4, "Starts": "all", "Sample": 0, "workers": 8, "style": "min"},
+            {"Family": "optinl", "MaxLen": 4, "Starts": "zero", "Sample": 0, "workers": 8, "style": "min"},
+            {"Family": "optsq", "MaxLen": 3, "Starts": "zero", "Sample": 0, "workers": 8, "style": "min"},
         ]
     for f in fams:
         f["gen_twice"] = True
